@@ -5,7 +5,7 @@
    constraint kind), with the body level the complete result of SemanticTokensInFile, compared on every run. *)
 From Coq Require Import String List ZArith Bool Sorted Permutation.
 From HV Require Import Base.Sexp Base.SortSpec Base.Pos Model.Schema Model.Ast Model.BodyQueries Model.Origins Model.ValueTokens
-                       Proofs.BodyQueriesProofs Proofs.TokenPlaces Proofs.ValueTargetsProofs Proofs.ValueTokensProofs Proofs.ValueTokensDisjoint.
+                       Proofs.BodyQueriesProofs Proofs.TokenPlaces Proofs.ValueTargetsProofs Proofs.ValueTokensProofs Proofs.ValueTokensDisjoint Proofs.TokensKnown.
 
 (* every token carries the modifiers of all enclosing blocks, outermost first, then its own *)
 Theorem C13_tokens_inherit_enclosing_modifiers : forall b bs mods,
@@ -71,3 +71,31 @@ Theorem C13_value_tokens_pairwise_disjoint : forall funcs vals fuel c e ts,
   ForallOrdPairs (fun x y => rdisj (vk_rng x) (vk_rng y)) ts.
 Proof. exact value_tokens_pairwise_disjoint. Qed.
 Print Assumptions C13_value_tokens_pairwise_disjoint.
+
+(* ---- exactly the schema-known elements ---- *)
+
+(* every attribute the effective schema knows gets its attribute-name token, with the enclosing modifiers and its own *)
+Theorem C13_known_attribute_is_marked : forall bs mods b a s,
+  In a (b_attrs b) -> token_attr_schema bs (a_name a) = Some s ->
+  In {| st_type := TokAttrName; st_mods := List.app mods (as_mods s); st_rng := a_name_rng a |} (tokens_body bs mods b).
+Proof. exact known_attribute_gets_a_token. Qed.
+Print Assumptions C13_known_attribute_is_marked.
+
+(* every block of a known type gets its block-type token *)
+Theorem C13_known_block_is_marked : forall bs mods b k sc,
+  In k (b_blocks b) -> alookup (k_type k) (bs_blocks bs) = Some sc ->
+  In {| st_type := TokBlockType; st_mods := List.app mods (bk_mods sc); st_rng := k_type_rng k |} (tokens_body bs mods b).
+Proof. exact known_block_gets_its_type_token. Qed.
+Print Assumptions C13_known_block_is_marked.
+
+(* unknown attributes get no token; a block of an unknown type gets none, and nothing written inside it does *)
+Theorem C13_unknown_attributes_are_not_marked : forall bs mods attrs r e,
+  Forall (fun a => token_attr_schema bs (a_name a) = None) attrs ->
+  tokens_body bs mods (Body attrs nil r e) = nil.
+Proof. exact unknown_attribute_gets_no_token. Qed.
+Print Assumptions C13_unknown_attributes_are_not_marked.
+
+Theorem C13_unknown_block_is_not_marked : forall rec bs mods k,
+  alookup (k_type k) (bs_blocks bs) = None -> block_tokens rec bs mods k = nil.
+Proof. exact unknown_block_gets_no_token. Qed.
+Print Assumptions C13_unknown_block_is_not_marked.
